@@ -5,7 +5,7 @@
    Model/ClientRoute.v (resolution and sending, client.py:468-527, 996-1029, 1109-1371).
    [WF] is the invariant of reachable states (C08_reachable_wf); [wf] is its boolean form. *)
 From AV Require Import Base.Util Model.ClientMeta Model.ClientRoute Proofs.ClientMetaDict Proofs.ClientMetaFacts
-  Proofs.ClientRouteWF Proofs.ClientRouteFacts Proofs.ClientMetaC08 Proofs.ClientMetaRecovery.
+  Proofs.ClientRouteWF Proofs.ClientRouteFacts Proofs.ClientMetaC08 Proofs.ClientMetaRecovery Proofs.ClientMetaBudget.
 
 (* Every state reachable by ANY history of client operations (metadata / coordinator loads with any try
    script and any response bytes, sends with any outcomes, resets, connection losses, close, host updates)
@@ -215,6 +215,54 @@ Theorem C08_fresh_iff_no_stale : forall truth st,
 Proof. exact fresh_iff_no_stale. Qed.
 Print Assumptions C08_fresh_iff_no_stale.
 
+(* RECOVERY WITHIN THE RETRY BUDGET (the last clause of the property), composed over attempts.
+   The caller's retry loop as the property sees it: the SAME payload list ps is sent again and again
+   ([run_attempt] = one send_*_request with fail_on_error = [fail]), each attempt with the cache the previous
+   ones left behind.  Premises ([all_good], for every attempt, in the cache state it is made in) - the cluster
+   after the last fault:
+     (P1) the topology is fixed: [truth] names the leader of every partition;
+     (P2) every metadata lookup of the attempt is answered truthfully ([load_truthful]) and the resolution of
+          the payloads gets as far as sending ([fanout .. <> None]: lookups are answered by some broker or
+          bootstrap host and name a leader for the asked partitions);
+     (P3) every request is ANSWERED, by the node it was sent to, for exactly its payloads, with error 0 for a
+          partition the node leads and NotLeader (6) otherwise ([honest_outs]).  This includes: a broker that was
+          re-addressed no longer holds the client's old connection (a surviving connection to a peer that does
+          not answer makes the send FAIL instead: then FailedPayloadsError empties the whole cache -
+          C08_invalidate - which costs one more attempt per such failure and is outside this theorem);
+     payload keys are distinct.
+   Conclusion: the number of failed attempts before the first success is at most [stale_count truth ps st], the
+   number of DISTINCT TOPICS among the payloads that have a stale cached leader when the retries start
+   (proved by induction: it strictly decreases with every failed attempt, for fail_on_error = True and False
+   alike); so ANY budget of more attempts than that reaches a successful attempt, and in that attempt every
+   payload is routed to its true leader and every answer is 0. *)
+Theorem C08_recovery_within_budget : forall truth fail ps atts st,
+  WF st -> NoDup (map p_key ps) -> all_good truth fail ps st atts ->
+  (stale_count truth ps st < length atts)%nat ->
+  exists k st_k a,
+    first_success fail ps st atts = Some k /\ (k <= stale_count truth ps st)%nat /\
+    nth_error atts k = Some a /\ WF st_k /\
+    success_b ps (snd (run_attempt fail ps st_k a)) = true /\
+    Forall (fun x => rs_node x = truth (p_key (rs_payload x))) (a_resolved (fst (fst (run_attempt fail ps st_k a)))).
+Proof. exact recovery_within_budget. Qed.
+Print Assumptions C08_recovery_within_budget.
+
+(* The calls Producer (one topic per produce request of a retry, coq/Model/Producer.v: budget c_max, C09_attempt_bound)
+   and Consumer (one partition per fetch, budget request_retry_max_attempts, C14_attempt_limit) make concern ONE
+   topic: at most ONE attempt fails, a budget of 2 attempts suffices.  (The budgets themselves and that the
+   callers really retry - and reset the topic for errors other than 3/6 - are C09/C14/C01/C02; not composed here.) *)
+Theorem C08_recovery_single_topic : forall truth fail ps atts st t,
+  WF st -> NoDup (map p_key ps) -> (forall p, In p ps -> p_topic p = t) ->
+  all_good truth fail ps st atts -> (2 <= length atts)%nat ->
+  exists k, first_success fail ps st atts = Some k /\ (k <= 1)%nat.
+Proof. exact recovery_single_topic. Qed.
+Print Assumptions C08_recovery_single_topic.
+
+(* the measure means what it says *)
+Theorem C08_stale_count_meaning : forall truth st t,
+  stale_tb truth st t = true <-> exists p n a, leader_of st (t, p) = Some (Some (n, a)) /\ n <> truth (t, p).
+Proof. exact stale_tb_iff. Qed.
+Print Assumptions C08_stale_count_meaning.
+
 (* Addresses: a broker client without a live connection connects to the address the cache has for its
    node (by C08_merge_exact the one the latest response naming the node gave); a client with a live
    connection keeps using it (brokerclient.py:148-165 updateMetadata only affects future connections). *)
@@ -299,4 +347,30 @@ Proof.
   - repeat constructor; intros t err parts p l Ht Hp Hl; simpl in Ht; destruct Ht as [Ht|[]]; inversion Ht; subst;
       simpl in Hp; intuition (try congruence); inversion H; subst; reflexivity.
   - split; reflexivity.
+Qed.
+
+(* the retry loop on two stale topics with fail_on_error=True: the bound 2 is attained (two failed attempts, the
+   third succeeds), all premises of C08_recovery_within_budget hold *)
+Definition ex_retry_ps := [{| p_topic := 1; p_part := 0; p_tag := 1 |}; {| p_topic := 0; p_part := 0; p_tag := 2 |}].
+Definition ex_u := {| u_shuf := [1; 2]; u_kouts := [KResp]; u_bshuf := []; u_bouts := [] |}.
+Definition ex_mk (st : state) (loads : list load) : attempt :=
+  {| at_loads := loads;
+     at_outs := map (fun q => ROk (map (honest_answer ex_truth (rq_node q)) (rq_payloads q)))
+                    (a_reqs (aware st None true ex_retry_ps loads [RFail; RFail; RFail])) |}.
+Definition ex_a1 := ex_mk ex_s1 [].
+Definition ex_st1 := snd (fst (run_attempt true ex_retry_ps ex_s1 ex_a1)).
+Definition ex_a2 := ex_mk ex_st1 [LoadMeta ex_u ex_t1].
+Definition ex_st2 := snd (fst (run_attempt true ex_retry_ps ex_st1 ex_a2)).
+Definition ex_a3 := ex_mk ex_st2 [LoadMeta ex_u ex_t0].
+Example ex_budget_attained :
+  stale_count ex_truth ex_retry_ps ex_s1 = 2%nat /\
+  first_success true ex_retry_ps ex_s1 [ex_a1; ex_a2; ex_a3] = Some 2%nat /\
+  all_good ex_truth true ex_retry_ps ex_s1 [ex_a1; ex_a2; ex_a3].
+Proof.
+  split; [vm_compute; reflexivity|]. split; [vm_compute; reflexivity|].
+  assert (Hc : forall r, r = ex_t0 \/ r = ex_t1 -> load_truthful ex_truth (LoadMeta ex_u r)).
+  { intros r [->| ->]; (split; [vm_compute; reflexivity|]);
+      intros t err parts p l Ht Hp Hl; vm_compute in Ht; destruct Ht as [Ht|[]]; inversion Ht; subst; clear Ht;
+      simpl in Hp; repeat (destruct Hp as [Hp|Hp]; [inversion Hp; subst; reflexivity|]); destruct Hp. }
+  simpl. repeat split; try (vm_compute; discriminate); try (vm_compute; reflexivity); try constructor; auto.
 Qed.
